@@ -74,6 +74,9 @@ impl VM {
             return mapping_id;
         }
 
+        // every path below loads this layout
+        self.current_global_layout = global_layout.clone();
+
         if global_layout.is_none() {
             self.globals_by_index.clear();
             self.current_global_mapping_id = mapping_id;
